@@ -3,7 +3,7 @@
 from hypothesis import strategies as st
 
 from tv.core import Result
-from tv.cyc import Harness, step
+from tv.cyc import Harness, draw_second, second_fold, second_request, step
 from tv.phases import phased_history
 
 ID = "C27"
@@ -52,7 +52,9 @@ def strategy(draw, tier="quick"):
     hi = 50 if tier == "quick" else 180
     hist = draw(phased_history({"alloc": [ma + 1, 4], "free": [mf + 1, 4], "clear": [8]}, PROFILES, 8, hi))
     validate = draw(st.sampled_from([True, True, True, False]))
-    return {"entries": entries, "max_alloc": ma, "max_free": mf, "validate": validate, "history": hist}
+    second, mask = draw_second(draw, ["alloc", "free"])
+    return {"entries": entries, "max_alloc": ma, "max_free": mf, "validate": validate, "history": hist,
+            "second": second, "second_mask": mask}
 
 
 def _count(raw, bias, mx, room, validate):
@@ -72,14 +74,17 @@ def run_case(case) -> Result:
 
     E, ma, mf, validate = case["entries"], case["max_alloc"], case["max_free"], case.get("validate", True)
     res = Result(labels=[f"entries{E}", "pow2" if E & (E - 1) == 0 else "nonpow2", "validate" if validate else "novalidate"])
-    h = Harness(lambda: CircularAllocator(E, ma, mf, with_validate_arguments=validate))
+    second = case.get("second")
+    h = Harness(lambda: CircularAllocator(E, ma, mf, with_validate_arguments=validate), second_callers=(second,) if second else ())
+    if second:
+        res.labels.append("two_callers_of_" + second)
     flags = dict(
         wrap_multi=False, wrap_single=False, overflow_refused=False, underflow_refused=False, full=False,
         alloc_free_same_cycle=False, clear_with_alloc=False, zero_count=False,
     )
 
     async def tb(ctx):
-        ios = h.ios(["alloc", "free", "clear"])
+        ios = h.ios(["alloc", "free", "clear"] + ([second + "_b"] if second else []))
         dut = h.dut
         sigs = [dut.start_idx, dut.end_idx, dut.allocated]
         s, n = 0, 0
@@ -95,8 +100,12 @@ def run_case(case) -> Result:
             # clear is drawn with 1/8 of its request weight so that histories are not reset all the time
             if rec.get("clear") is not None and rec["clear"][0] == 0:
                 reqs["clear"] = {}
+            second_request(case, reqs, cyc)
             results, (v_start, v_end, v_n) = await step(ctx, ios, reqs, sigs)
             res.stats["cycles"] = res.stats.get("cycles", 0) + 1
+            msg = second_fold(case, reqs, results)
+            if msg:
+                return res.fail(f"cycle {cyc}: {msg}")
             where = f"cycle {cyc} (start={s} allocated={n} entries={E})"
             # public state signals (sampled at the clock edge = state before this cycle's calls take effect)
             if v_n != n:
